@@ -387,6 +387,26 @@ impl Gen {
         out.truncate(max_len);
         out.into_iter().map(|m| (m.0, m.1, m.2, m.3)).collect()
     }
+    /// many ECUs: 60 .. 200 distinct ECU ids (around every plausible table capacity: 64, 65, 66, 128, 129), a few messages each,
+    /// interleaved; some ECUs reboot, some get confirmed while others are still buffered
+    fn many_ecus_stream(&mut self) -> Vec<In> {
+        let ne = *self.rng.pick(&[60u64, 64, 65, 66, 67, 100, 128, 129, 130, 200]);
+        let mut v = Vec::new();
+        let mut rx = 1000u64;
+        let mut up = vec![0u64; ne as usize];
+        let rounds = self.rng.range(1, 3);
+        for r in 0..rounds {
+            for e in 0..ne {
+                if self.rng.chance(1, 9) { continue; }
+                rx += *self.rng.pick(&[0u64, 0, 0, 1, 2]);
+                if r > 0 && self.rng.chance(1, 10) { up[e as usize] = 0; }                       // reboot
+                up[e as usize] += *self.rng.pick(&[1u64, 5, 30, 70]);
+                v.push(grid_in(&format!("E{:03}", e), rx, up[e as usize], if self.rng.chance(1, 15) { "ctrl" } else { "norm" }));
+            }
+            rx += *self.rng.pick(&[1u64, 30, 62]);
+        }
+        v
+    }
     /// "physical" stream: ECUs with boots, delays, suspend/resume, reboots, garbage timestamps, ctrl requests, non-monotonic rx
     fn physical_stream(&mut self, max_n: u64) -> Vec<In> {
         let ne = self.rng.range(1, 4) as usize;
@@ -424,7 +444,7 @@ impl Gen {
         v
     }
     /// clean-boot trace with ground truth (C08): returns (inputs, boots[{ecu,bt,delay,maxts}])
-    fn clean_stream(&mut self, max_boots: u64, max_per_boot: u64, ne: usize, fine: bool) -> (Vec<In>, Vec<Value>) {
+    fn clean_stream(&mut self, max_boots: u64, max_per_boot: u64, ne: usize, fine: bool, zero: bool) -> (Vec<In>, Vec<Value>) {
         let names = ["A", "B", "C"];
         // fine (1 ms ticks): boots of 100 s .. 2 h followed by off-times of 1 .. 20 ms (and a few longer ones), delays up to 65 s
         let delays: &[u64] = if fine { &[0, 0, 1, 500, 30_000, 65_000] } else { &[0, 0, 1, 5, 30, 65] };
@@ -434,11 +454,15 @@ impl Gen {
         let mut boots = Vec::new();
         for e in 0..ne {
             let mut seq = Vec::new();
-            let mut bt = 1000 + self.rng.below(50);
+            // zero (with --epoch0: recordings of a logger without a real-time clock): the first boot of an ECU may start at the
+            // very beginning of the epoch with no delay - boot time + delay = 0, a timestamp then EQUALS the reception time
+            let mut bt = if zero && self.rng.chance(2, 3) { 0 } else { 1000 + self.rng.below(50) };
+            let mut first_boot = true;
             let nb = self.rng.range(1, max_boots);
             let mut max_rx_prev = 0;
             for _ in 0..nb {
-                let delay = *self.rng.pick(delays);
+                let delay = if zero && first_boot && bt == 0 { 0 } else { *self.rng.pick(delays) };
+                first_boot = false;
                 let k = self.rng.range(1, max_per_boot);
                 let mut tss: Vec<u64> = (0..k).map(|_| *self.rng.pick(tsv)).collect();
                 if self.rng.chance(2, 3) { tss.sort(); }
@@ -594,7 +618,7 @@ fn main() {
     let n_random = a.num("--random", 0);
     let max_n = a.num("--max-len", 40);
     for i in 0..n_random {
-        let style = i % 6;
+        let style = i % 7;
         let crsw = ["norm", "ctrl", "nots", "crsw0", "crsw1", "crsw4", "crsw5", "crsw12", "cresp1"];
         let inputs = match style {
             0 => g.grid_stream(max_n.min(14), &["A"], &["norm", "ctrl", "nots"]),
@@ -602,6 +626,7 @@ fn main() {
             2 => g.grid_stream(max_n.min(14), &["A", "B"], &crsw),
             3 => g.grid_stream(max_n, &["A", "B", "C"], &["norm", "ctrl"]),
             4 => g.refresh_stream(max_n.min(30)),
+            5 => g.many_ecus_stream(),
             _ => g.physical_stream(max_n * 4),
         };
         let prepop = g.rng.chance(1, 6) && inputs.len() >= 4;
@@ -673,7 +698,7 @@ fn main() {
     // ---- clean-boot traces (C08)
     for i in 0..a.num("--clean", 0) {
         let ne = 1 + (i % 3) as usize;
-        let (inputs, boots) = g.clean_stream(a.num("--max-boots", 4), a.num("--max-per-boot", 5), ne, a.has("--clean-fine"));
+        let (inputs, boots) = g.clean_stream(a.num("--max-boots", 4), a.num("--max-per-boot", 5), ne, a.has("--clean-fine"), a.has("--clean-zero"));
         let obs = run_detector(&[msgs_of(&inputs, 0)], false);
         if obs.panic.is_some() { panics += 1; }
         write_trace(&mut t, case, json!({"kind":"clean","src":"clean","prepop":false,"boots":boots}), &inputs, &obs);
